@@ -512,13 +512,17 @@ def _run_process(case, ctx):
         if i % 3 == 1:
             # a text column next to the numbers (valve state, step name)
             specs[-1]["extra"]["valve"] = [r.choice(["open", "closed", "dosing", "ünï"]) for _ in specs[-1]["pressure"]]
+    # two records of a gas the library does not know, spelled with another capitalisation in the second; the other process builds
+    # everything in the opposite order (what an identifier is does not depend on what was built before it in the session)
+    for spelling in ("verif-unlisted-gas-%d" % (case["seed"] % 7), "Verif-Unlisted-GAS-%d" % (case["seed"] % 7)):
+        specs.append(dict(copy.deepcopy(specs[0]), adsorbate=spelling, extra={}))
     here = [gen.build_point(s, "df").iso_id for s in specs]
     env = dict(os.environ)
     env["PYTHONHASHSEED"] = str(case["hashseed"])
     try:
-        p = subprocess.run([sys.executable, "-c", _CHILD], input=json.dumps(specs), capture_output=True, text=True, env=env, timeout=120)
+        p = subprocess.run([sys.executable, "-c", _CHILD], input=json.dumps(specs[::-1]), capture_output=True, text=True, env=env, timeout=120)
         line = [l for l in p.stdout.splitlines() if l.startswith("IDS")][-1]
-        there = json.loads(line[3:])
+        there = json.loads(line[3:])[::-1]
     except Exception as exc:
         ctx.error("c05: child process failed", exc)
         return
